@@ -314,7 +314,7 @@ def _parse_string_sdv(token: Token) -> StringSdv:
 
 
 def _string_fragments_is_constant(fragments: list) -> bool:
-    return len(fragments) == 1 and fragments[0].is_constant
+    return not fragments or (len(fragments) == 1 and fragments[0].is_constant)
 
 
 def _first_fragment_is_symbol_that_can_act_as_path(fragments: list) -> bool:
